@@ -246,8 +246,10 @@ func (w *world) drainActionsLocked() bool {
 					w.evLocked("action-proposal", a.PH.Header.Height, a.PH.Round, string(a.PH.Header.Hash), a.PH.Signature, nil)
 				case len(a.Prevote.Sig) > 0:
 					w.evLocked("action-prevote", e.re.H, e.re.R, a.Prevote.TargetHash, a.Prevote.Sig, nil)
+					w.log[len(w.log)-1].G = a.Prevote.SignContent
 				case len(a.Precommit.Sig) > 0:
 					w.evLocked("action-precommit", e.re.H, e.re.R, a.Precommit.TargetHash, a.Precommit.Sig, nil)
+					w.log[len(w.log)-1].G = a.Precommit.SignContent
 				default:
 					w.evLocked("action-empty", e.re.H, e.re.R, "", nil, nil)
 				}
